@@ -1,5 +1,8 @@
 import RichModel.Lemmas.Cells
 import RichModel.Lemmas.Segment
+import RichModel.Lemmas.CellsChop
+import RichModel.Lemmas.Lru
+import RichModel.Lemmas.SegmentExtra
 import RichModel.Gen.CellWidths
 /-!
 # C13 — cell-width arithmetic and line shaping are exact and history-independent
@@ -60,6 +63,136 @@ theorem chop_cells_concat (s : List Char) (m p : Nat) : (chopCells cw s m p).fla
 theorem chop_cells_fit (s : List Char) (m p : Nat) (hm : 2 ≤ m) (hp : p ≤ m) :
     ∀ q ∈ chopCells cw s m p, cellLen cw q ≤ m :=
   chop_fits cw s m p (fun c => Nat.le_trans (charWidth_le_two c) hm) hp
+
+/-! ## `chop_cells` from ANY starting position and for ANY width (deepening round 4)
+
+`rich/_wrap.py::divide_line` calls `chop_cells(word, width, position=line_position)` where `line_position` is the
+cell length of the previous word *with* its trailing spaces, which may exceed `width`; so no `p ≤ m` is assumed. -/
+
+/-- The exact first-piece bound and the bound on every later piece, with no hypothesis on `m` or `p`:
+the result is never empty; its first piece is empty or fits in what is left of the line (`p` + its width ≤ `m`);
+every later piece is non-empty and fits the width, unless it is one single character wider than the whole width;
+and the split is greedy (`ChopMax`: the first character of each next piece did not fit behind the piece before it). -/
+theorem chop_cells_first_piece (s : List Char) (m p : Nat) :
+    ∃ q0 tl, chopCells cw s m p = q0 :: tl ∧ (q0 = [] ∨ p + cellLen cw q0 ≤ m) ∧
+      (∀ q ∈ tl, PieceOK cw m q) ∧ ChopMax cw m p (q0 :: tl) :=
+  chop_first cw s m p
+
+/-- **Exactness of `chop_cells`**: concatenation, the fit clauses and greediness determine the pieces — any piece
+list `L` that concatenates to `s`, whose first piece is empty or fits behind `p`, whose later pieces are `PieceOK`
+and which is greedy, IS `chop_cells(s, m, position=p)`.  With `chop_cells_concat` and `chop_cells_first_piece`
+(the converse) this is a complete specification, for every `s`, `m`, `p`. -/
+theorem chop_cells_unique (s : List Char) (m p : Nat) (L : List (List Char))
+    (hfl : L.flatten = s) (hfit : ChopFit cw m p L) (hmax : ChopMax cw m p L) : L = chopCells cw s m p :=
+  chop_unique cw s m p L hfl hfit hmax
+
+/-- `chop_cells_fit` without `p ≤ m`: at width ≥ 2 every piece fits, wherever the line started. -/
+theorem chop_cells_fit_any_position (s : List Char) (m p : Nat) (hm : 2 ≤ m) :
+    ∀ q ∈ chopCells cw s m p, cellLen cw q ≤ m := by
+  obtain ⟨q0, tl, h, h0, htl, _⟩ := chop_cells_first_piece s m p
+  rw [h]
+  intro q hq
+  rcases List.mem_cons.mp hq with hq | hq
+  · subst hq
+    rcases h0 with h0 | h0
+    · subst h0; simp [cellLen]
+    · omega
+  · rcases (htl q hq).2 with h1 | ⟨c, _, hc⟩
+    · exact h1
+    · have := charWidth_le_two c; omega
+
+/-! ## `LRUCache` (rich/_lru_cache.py) as a state machine, refined to a plain map that never evicts -/
+
+section Lru
+variable {K V : Type} [DecidableEq K]
+
+/-- For every capacity ≥ 1 and EVERY history of `__setitem__` / `__getitem__` / `get` / `in` / `len` from the empty
+cache: the outputs are those of the abstract machine `amRun`, whose state `A` is a plain association list that never
+drops anything; the cache content is exactly `A` restricted to its `cap` most recent keys; `A` has distinct keys;
+and `A` read as a function is the plain finite map of the history (`plainRun`: `Function.update` at each
+`__setitem__`, nothing else). -/
+theorem lru_refines_plain_map (cap : Nat) (hcap : 0 < cap) (ops : List (LruOp K V)) :
+    Lru.run { cap := cap, items := ([] : List (K × V)) } ops =
+      ((amRun cap [] ops).1, { cap := cap, items := viewL cap (amRun cap [] ops).2 }) ∧
+    KeysNodup (amRun cap ([] : List (K × V)) ops).2 ∧
+    ∀ k, lookupL (amRun cap ([] : List (K × V)) ops).2 k = plainRun (fun _ => none) ops k := by
+  have hn : KeysNodup ([] : List (K × V)) := by simp [KeysNodup]
+  have h := amRun_sim cap hcap ops ([] : List (K × V)) hn
+  refine ⟨?_, h.2, ?_⟩
+  · have := h.1; simpa [viewL] using this
+  · intro k
+    rw [amRun_lookup cap hcap ops [] hn k]
+    apply plainRun_congr
+    intro k'; simp [lookupL]
+
+/-- …and from any state whose content is the view of some plain map with distinct keys (not only the empty one). -/
+theorem lru_refines_plain_map_from (cap : Nat) (hcap : 0 < cap) (A : List (K × V)) (hA : KeysNodup A)
+    (ops : List (LruOp K V)) :
+    Lru.run { cap := cap, items := viewL cap A } ops =
+      ((amRun cap A ops).1, { cap := cap, items := viewL cap (amRun cap A ops).2 }) ∧
+    KeysNodup (amRun cap A ops).2 ∧
+    ∀ k, lookupL (amRun cap A ops).2 k = plainRun (lookupL A) ops k :=
+  ⟨(amRun_sim cap hcap ops A hA).1, (amRun_sim cap hcap ops A hA).2, amRun_lookup cap hcap ops A hA⟩
+
+/-- `len(cache) ≤ cache_size` and the keys are distinct, after every history. -/
+theorem lru_bounded (cap : Nat) (hcap : 0 < cap) (ops : List (LruOp K V)) :
+    (Lru.run { cap := cap, items := ([] : List (K × V)) } ops).2.items.length ≤ cap ∧
+    KeysNodup (Lru.run { cap := cap, items := ([] : List (K × V)) } ops).2.items := by
+  obtain ⟨h1, h2, _⟩ := lru_refines_plain_map cap hcap ops
+  rw [h1]
+  exact ⟨viewL_length_le _ _, keysNodup_viewL _ _ h2⟩
+
+/-- A hit is never stale: whatever the cache holds for `k` after a history is what a plain `dict` would hold. -/
+theorem lru_hit_sound (cap : Nat) (hcap : 0 < cap) (ops : List (LruOp K V)) (k : K) (v : V)
+    (h : lookupL (Lru.run { cap := cap, items := ([] : List (K × V)) } ops).2.items k = some v) :
+    plainRun (fun _ => none) ops k = some v := by
+  obtain ⟨h1, h2, h3⟩ := lru_refines_plain_map cap hcap ops
+  rw [h1] at h
+  rw [← h3 k]
+  exact lookupL_view cap _ h2 k v h
+
+/-- Capacity 0 (or negative): `__setitem__` on the empty cache raises `KeyError` (from `popitem`) and stores nothing. -/
+theorem lru_cap_zero (op : LruOp K V) :
+    ((Lru.step { cap := 0, items := ([] : List (K × V)) } op).2.items = []) ∧
+    (∀ k v, op = .setitem k v → (Lru.step { cap := 0, items := ([] : List (K × V)) } op).1 = .keyError) :=
+  lru_cap_zero_step op
+
+end Lru
+
+/-- The cache model used by `cell_len` (`Cache.get` / `Cache.set`) is this machine's `get` / `__setitem__`
+(for a capacity ≥ 1, or a non-empty cache; at capacity 0 `Cache.set` stores where Python raises `KeyError`). -/
+theorem cell_len_cache_is_lru (c : Cache) (k : List Char) (v : Nat) (h : 0 < c.cap ∨ c.items ≠ []) :
+    c.get k = lookupL c.items k ∧
+    Lru.step { cap := c.cap, items := c.items } (.setitem k v) =
+      (.unit, { cap := (c.set k v).cap, items := (c.set k v).items }) :=
+  ⟨Cache.get_eq_lookupL c k, Cache.set_eq_step c k v h⟩
+
+/-! ## The remaining small pieces (deepening round 4): `set_cell_size` for any integer total, `make_control`,
+`Segment.line` -/
+
+/-- `set_cell_size(text, total)` for EVERY Python int `total`: exactly `total` cells made of a prefix of the text and
+spaces when `total ≥ 0`; the empty string when `total < 0`. -/
+theorem set_cell_size_any_total (s : List Char) (t : Int) :
+    (0 ≤ t → cellLen cw (setCellSizeI cw s t) = t.toNat ∧
+      ∃ k m, setCellSizeI cw s t = s.take k ++ List.replicate m ' ') ∧
+    (t < 0 → setCellSizeI cw s t = []) := by
+  refine ⟨fun h => ?_, setCellSizeI_neg cw s t⟩
+  obtain ⟨n, rfl⟩ := Int.eq_ofNat_of_zero_le h
+  rw [setCellSizeI_nonneg]
+  simpa using set_cell_size_exact s n
+
+theorem charWidth_newline : cw '\n' = 0 := by decide +kernel
+
+/-- `Segment.make_control`: every segment becomes a control segment with its text and style, so the line measures 0
+cells; `Segment.line()` (a `"\n"` text segment or control segment) measures 0 cells too. -/
+theorem make_control_spec {σ : Type} (segs : List (Segment σ)) (b : Bool) :
+    (∀ s ∈ makeControl segs, s.control = true) ∧
+    (makeControl segs).map (fun s => (s.text, s.style)) = segs.map (fun s => (s.text, s.style)) ∧
+    lineLength cw (makeControl segs) = 0 ∧
+    lineLength cw [(Segment.newLine b : Segment σ)] = 0 := by
+  obtain ⟨h1, h2, h3⟩ := makeControl_spec cw segs
+  refine ⟨h1, h2, h3, ?_⟩
+  cases b <;> simp [Segment.newLine, lineLength, Segment.cellLength, cellLen, charWidth_newline]
 
 variable {σ : Type}
 
@@ -181,5 +314,22 @@ example : cellLen cw ['あ', 'a'] = 3 := by decide +kernel
 example : setCellSize cw ['あ', 'a'] 1 = [' '] := by decide +kernel
 example : chopCells cw ['あ', 'a', 'b'] 2 0 = [['あ'], ['a', 'b']] := by decide +kernel
 example : lineLength cw ([{ text := ['あ'], style := some 1 }] : List (Segment Nat)) ≤ 4 := by decide +kernel
+example : chopCells cw ['a', 'あ', 'b', 'c'] 3 5 = [[], ['a', 'あ'], ['b', 'c']] := by decide +kernel
+example : chopCells cw ['あ', 'a'] 1 0 = [[], ['あ'], ['a']] := by decide +kernel
+example : (Lru.run { cap := 2, items := ([] : List (Nat × Nat)) }
+    [.setitem 1 10, .setitem 2 20, .getitem 1, .setitem 3 30, .get 2, .get 1, .getitem 2, .len]).1 =
+    [.unit, .unit, .val 10, .unit, .unit, .val 10, .keyError, .nat 2] := by decide
+example : KeysNodup [(1, 10), (2, 20)] ∧ viewL 1 [(1, 10), (2, 20)] = [(2, 20)] := by
+  unfold KeysNodup; decide
+example : setCellSizeI cw ['あ', 'a'] (-3) = [] ∧ setCellSizeI cw ['あ', 'a'] 1 = [' '] := by decide +kernel
+example : splitLines ([{ text := ['a'], style := none }, Segment.newLine, { text := ['b'], style := some 1 }] : List (Segment Nat)) =
+    [[{ text := ['a'], style := none }], [{ text := ['b'], style := some 1 }]] := by decide
+example : ChopFit cw 3 5 [[], ['a', 'あ'], ['b', 'c']] ∧ ChopMax cw 3 5 [[], ['a', 'あ'], ['b', 'c']] := by
+  refine ⟨⟨Or.inl rfl, ?_⟩, ⟨'a', ['あ'], rfl, by decide +kernel⟩, ⟨'b', ['c'], rfl, by decide +kernel⟩, trivial⟩
+  intro q hq
+  simp only [List.mem_cons, List.not_mem_nil, or_false] at hq
+  rcases hq with rfl | rfl
+  · exact ⟨by simp, Or.inl (by decide +kernel)⟩
+  · exact ⟨by simp, Or.inl (by decide +kernel)⟩
 
 end RichModel.C13
